@@ -81,6 +81,11 @@ namespace nmtools::index
                 auto r_shape_i = float(at(shape,spatial_i) + pad - ((at(kernel_size,spatial_i) - 1) * dilations + 1)) / at(stride,spatial_i) + 1;
                 if (static_cast<bool>(ceil_mode)) {
                     at(res,spatial_i) = math::constexpr_ceil(r_shape_i);
+                    // following pytorch, the last pooling window must start inside the input (or left padding),
+                    // otherwise the window is empty
+                    if ((at(res,spatial_i) > 0) && (((at(res,spatial_i) - 1) * at(stride,spatial_i)) >= (at(shape,spatial_i) + pad))) {
+                        at(res,spatial_i) = at(res,spatial_i) - 1;
+                    }
                 } else {
                     at(res,spatial_i) = math::constexpr_floor(r_shape_i);
                 }
